@@ -118,29 +118,33 @@ func runC07(w *World, r *Report, tier string) {
 		}
 	}
 
-	// R1: in route
-	var lookups, deletes []ssa.Instruction
+	// R1: in route (or in a helper that runs only on its behalf)
+	routeKey := "xmpp.(*Router).route"
+	var lookups, deletes []macc
 	for _, a := range accs {
-		if a.fn == route && a.kind == "lookup" {
-			lookups = append(lookups, a.in)
+		if !w.ownedOnlyBy(a.fn, routeKey) {
+			continue
 		}
-		if a.fn == route && a.kind == "delete" {
-			deletes = append(deletes, a.in)
+		if a.kind == "lookup" {
+			lookups = append(lookups, a)
+		}
+		if a.kind == "delete" {
+			deletes = append(deletes, a)
 		}
 	}
 	if len(lookups) == 0 || len(deletes) == 0 {
 		r.Undecided("R1", "xmpp.(*Router).route#claim", w.pos(route.Pos()), fmt.Sprintf("expected a lookup and a delete of the pending entry in route, found %d/%d", len(lookups), len(deletes)))
 	} else {
-		rl := li(route)
 		for i, d := range deletes {
 			cons := fmt.Sprintf("xmpp.(*Router).route#claim#%d", i+1)
 			ok := false
+			rl := li(d.fn)
 			for _, l := range lookups {
-				if rl.sameRegion(l, d) && rl.holdsW(l) && rl.holdsW(d) {
+				if l.fn == d.fn && rl.sameRegion(l.in, d.in) && rl.holdsW(l.in) && rl.holdsW(d.in) {
 					ok = true
 				}
 			}
-			r.Check(ok, "R1", cons, w.ipos(d), "the lookup that finds the pending entry and the delete that removes it are in different critical sections (or not write-locked): two goroutines routing responses with the same id can both claim the entry; the second sends on and closes an already closed channel (panic)", "lookup and delete in one write-locked section")
+			r.Check(ok, "R1", cons, w.ipos(d.in), "the lookup that finds the pending entry and the delete that removes it are in different critical sections (or not write-locked): two goroutines routing responses with the same id can both claim the entry; the second sends on and closes an already closed channel (panic)", "lookup and delete in one write-locked section")
 		}
 	}
 
@@ -216,7 +220,7 @@ func runC07(w *World, r *Report, tier string) {
 
 	// R4: delivery sequence on the claimed path
 	if len(lookups) > 0 {
-		lk := lookups[0].(*ssa.Lookup)
+		lk := lookups[0].in.(*ssa.Lookup)
 		var okV ssa.Value
 		for _, rf := range *lk.Referrers() {
 			if ex, ok := rf.(*ssa.Extract); ok && ex.Index == 1 {
@@ -225,7 +229,7 @@ func runC07(w *World, r *Report, tier string) {
 		}
 		isDel := func(in ssa.Instruction) bool {
 			for _, d := range deletes {
-				if d == in {
+				if d.in == in {
 					return true
 				}
 			}
@@ -262,7 +266,7 @@ func runC07(w *World, r *Report, tier string) {
 		} else {
 			err := walkPaths(after(lk), nil, func(b *ssa.BasicBlock, succ int) bool {
 				c, truth, ok := edgeAssertion(b, succ)
-				if ok && c == okV {
+				if ok && (c == okV || rvLast(c) == okV) {
 					return truth // follow only ok == true
 				}
 				return true
@@ -289,17 +293,17 @@ func runC07(w *World, r *Report, tier string) {
 				r.Check(bad == "" && n > 0, "R4", "xmpp.(*Router).route#claimed-path", w.ipos(lk), bad, fmt.Sprintf("%d path(s): delete ≺ send ≺ close, once each, then return", n))
 			}
 			// the value sent is the routed IQ; the channel is the claimed entry's
-			allInstrs(route, func(in ssa.Instruction) {
+			allInstrsH(route, func(in ssa.Instruction) {
 				if s, ok := in.(*ssa.Send); ok && isSendRes(in) {
 					okVal := false
 					if u, ok := s.X.(*ssa.UnOp); ok && u.Op == token.MUL {
-						if T, _ := typeAssertSource(u.X, nil); T != nil && w.typeStr(T) == "*stanza.IQ" {
+						if T, _ := typeAssertSource(origin(u.X), nil); T != nil && w.typeStr(T) == "*stanza.IQ" {
 							okVal = true
 						}
 					}
 					_, base := loadedField(chanOrigin(s.Chan))
 					okCh := false
-					if ex, ok := base.(*ssa.Extract); ok && ex.Tuple == ssa.Value(lk) && ex.Index == 0 {
+					if ex, ok := originNN(base).(*ssa.Extract); ok && ex.Tuple == ssa.Value(lk) && ex.Index == 0 {
 						okCh = true
 					}
 					r.Check(okVal && okCh, "R4", "xmpp.(*Router).route#delivered-value", w.ipos(in), "the value delivered is not the routed IQ, or the channel is not the claimed entry's", "sends *iq on the claimed entry's channel")
